@@ -16,7 +16,7 @@ FAILURE == 1
 
 
 NoSes == [ phase |-> "none", codec |-> 0, role |-> "none", both |-> FALSE, k |-> 0, n |-> 0, len |-> 0, m |-> 0, npos |-> 0,
-           payload |-> "id", H |-> <<>>, claim |-> FALSE, cbMode |-> "none",
+           payload |-> "id", H |-> <<>>, claim |-> FALSE, claimed |-> -1, cbMode |-> "none",
            rcvd |-> {}, known |-> {}, done |-> FALSE, finished |-> FALSE, mlok |-> FALSE,
            appHeld |-> {}, appMaybe |-> {}, viaCb |-> {}, cbs |-> {}, built |-> <<>>, everComplete |-> FALSE ]
 
